@@ -6,6 +6,7 @@ import (
 	"errors"
 	"fmt"
 	"io"
+	"math"
 	"os"
 	"strconv"
 	"strings"
@@ -439,8 +440,11 @@ func (mr MeshReader) Read(reader io.Reader) (*modeling.Mesh, error) {
 			}
 		}
 
-		// Read data
+		// Read data. A record is one line, and nothing in the format limits
+		// how many properties (or how long a list) a record has, so do not
+		// let the scanner's default 64KiB token limit reject wide rows.
 		scanner := bufio.NewScanner(reader)
+		scanner.Buffer(make([]byte, 0, bufio.MaxScanTokenSize), math.MaxInt32)
 		for i := int64(0); i < vertexElement.Count; i++ {
 			if !scanner.Scan() {
 				if err := scanner.Err(); err != nil {
